@@ -1,6 +1,7 @@
 import RasnModel.Driver.C06
 import RasnModel.Driver.C14
 import RasnModel.Driver.C16
+import RasnModel.Driver.Struct
 /- Line-protocol driver: one request per line, one canonical answer per line. -/
 
 def dispatch (line : String) : String :=
@@ -8,6 +9,7 @@ def dispatch (line : String) : String :=
   | some (.atom "c06" :: args) => Driver.C06.handle args
   | some (.atom "c14" :: args) => Driver.C14.handle args
   | some (.atom "c16" :: args) => Driver.C16.handle args
+  | some (.atom "struct" :: args) => Driver.Struct.handle args
   | some (.atom "ping" :: _) => "pong"
   | _ => "bad-op"
 
